@@ -100,6 +100,7 @@ func GenSProgram(t *rapid.T, cfg SGenCfg) SProgram {
 	}
 	nops := rapid.IntRange(cfg.MinOps, cfg.MaxOps).Draw(t, "nops")
 	slowLeft := faultBudget{slow: cfg.MaxSlow, drop: 3}
+	var snapNames []string
 	total := int64(blocks) * 8
 	if cfg.FillPct > 0 && rapid.IntRange(0, 99).Draw(t, "fill") < cfg.FillPct {
 		p.Ops = append(p.Ops, SOp{K: "write", Off: 0, Len: total, Seed: rapid.IntRange(1, 250).Draw(t, "fillseed")})
@@ -188,6 +189,27 @@ func GenSProgram(t *rapid.T, cfg SGenCfg) SProgram {
 			p.Ops = append(p.Ops, SOp{K: k, Node: rapid.IntRange(0, nodes-1).Draw(t, "node")})
 		case "snapshot":
 			o := SOp{K: "snapshot", Name: fmt.Sprintf("v%d", len(p.Ops))}
+			// names that look like file names: "<earlier name>.img" (so that both X and
+			// X.img exist), "v7.img", "volume-snap-v7" - a snapshot name is free text,
+			// its disk is volume-snap-<name>.img whatever the name looks like
+			switch rapid.IntRange(0, 9).Draw(t, "namestyle") {
+			case 0:
+				if len(snapNames) > 0 {
+					o.Name = rapid.SampledFrom(snapNames).Draw(t, "pairof") + ".img"
+					for _, have := range snapNames {
+						if have == o.Name {
+							o.Name = fmt.Sprintf("v%d.img", len(p.Ops))
+						}
+					}
+				} else {
+					o.Name += ".img"
+				}
+			case 1:
+				o.Name += ".img"
+			case 2:
+				o.Name = "volume-snap-" + o.Name
+			}
+			snapNames = append(snapNames, o.Name)
 			if cfg.RestFail && rapid.IntRange(0, 2).Draw(t, "rf") == 0 {
 				nf := rapid.IntRange(1, nodes).Draw(t, "nfail")
 				o.Fail = rapid.Permutation(seqInts(nodes)).Draw(t, "failperm")[:nf]
